@@ -774,6 +774,74 @@ func c18CrossEndpoint(c *Ctx, srv *server, n int) {
 			r.Violate("C18|/"+ep+"/validate|cross-endpoint|", "a code generated by /"+ep+"/generate does not validate at /"+ep+"/validate with the same fields", "rest", restCase{EP: ep + "/validate", Method: "POST", F: f}, "valid:true", clipS(string(va.Body)))
 		}
 	}
+	// OCRA across endpoints: the suite is named in the request as raw_suite, as a structured suite object, or as the
+	// {raw, config} pair exactly as /ocra/suite describes it (a client that passes the description on); the code
+	// /ocra/generate returns must validate at /ocra/validate with the same fields, a changed code must not
+	names := liveNames()
+	for i := 0; i < n && len(names) > 0; i++ {
+		name := gen.Pick(rng, names)
+		m, ok := ref.ParseSuiteName(name)
+		if !ok {
+			continue
+		}
+		sec, _ := restSecret(rng)
+		f := map[string]any{"secret": sec}
+		form := []string{"raw_suite", "suite object", "raw_suite + suite object as /ocra/suite returns them"}[i%3]
+		if i%3 != 1 {
+			f["raw_suite"] = name
+		}
+		if i%3 != 0 {
+			d := srv.do("POST", "/ocra/suite", jsonBody(map[string]any{"raw_suite": name}), false, 30*time.Second)
+			do, _ := decodeJSON(d.Body)
+			cm, _ := do["config"].(map[string]any)
+			if d.Err != nil || d.Status != 200 || cm == nil {
+				r.Count("ocra_suite_descriptions_unavailable", 1)
+				continue // judged by the per-endpoint oracle
+			}
+			r.Count("ocra_suite_descriptions_passed_on", 1)
+			f["suite"] = cm
+		}
+		in := admissibleInput(rng, m, i)
+		im := map[string]any{}
+		for k, b := range map[string][]byte{"counter_hex": in.Counter, "challenge_hex": in.Challenge, "password_hex": in.Password, "session_info_hex": in.Session, "timestamp_hex": in.Timestamp} {
+			if len(b) > 0 {
+				im[k] = ref.HexEncode(b)
+			}
+		}
+		if m.Q && len(in.Challenge) == 0 {
+			continue
+		}
+		f["input"] = im
+		g := srv.do("POST", "/ocra/generate", jsonBody(f), false, 30*time.Second)
+		out, _ := decodeJSON(g.Body)
+		code := fStr(out, "code")
+		r.Eval(1)
+		if g.Err != nil || g.Status != 200 || code == "" {
+			if i%3 == 0 {
+				r.Violate("C18|/ocra/generate|cross-endpoint|", "/ocra/generate does not answer a registered raw suite with admissible input", "rest", restCase{EP: "ocra/generate", Method: "POST", F: f}, "200 + code", fmt.Sprintf("%d %s", g.Status, clipS(string(g.Body))))
+			}
+			continue
+		}
+		f["code"] = code
+		va := srv.do("POST", "/ocra/validate", jsonBody(f), false, 30*time.Second)
+		vo, _ := decodeJSON(va.Body)
+		r.Eval(1)
+		r.Count("cross_endpoint_pairs_ocra", 1)
+		if ok, _ := vo["valid"].(bool); !ok {
+			r.Violate("C18|/ocra/validate|cross-endpoint|", "a code generated by /ocra/generate does not validate at /ocra/validate with the same fields (suite given as "+form+")", "rest", restCase{EP: "ocra/validate", Method: "POST", F: f}, "valid:true", clipS(string(va.Body)))
+		}
+		b := []byte(code)
+		b[len(b)-1] = '0' + (b[len(b)-1]-'0'+1)%10
+		f["code"] = string(b)
+		vb := srv.do("POST", "/ocra/validate", jsonBody(f), false, 30*time.Second)
+		vbo, _ := decodeJSON(vb.Body)
+		if ok, _ := vbo["valid"].(bool); ok {
+			r.Violate("C18|/ocra/validate|cross-endpoint-accepts-changed-code|", "/ocra/validate accepts a code that differs in its last digit from the one /ocra/generate returned for the same fields (suite given as "+form+")", "rest", restCase{EP: "ocra/validate", Method: "POST", F: f}, "valid:false", clipS(string(vb.Body)))
+		}
+	}
+	if n >= 3 && len(names) > 0 && r.Counter("ocra_suite_descriptions_passed_on") == 0 {
+		r.Inconclusive("OCRA cross-endpoint flow: no suite description could be obtained from /ocra/suite, the {raw, config} form was not exercised")
+	}
 	// "timestamp omitted => now" for validation: period 3600 and skew 1, so only an hour-long stall could change the verdict
 	for i := 0; i < 5; i++ {
 		sec, key := restSecret(rng)
